@@ -41,5 +41,8 @@ for d in sorted(os.listdir(f"{HERE}/seeded")):
         "tools/verify_seed.sh seeded/%s  (scratch worktree of /repo HEAD: demo without patch, demo with patch, pinned suite with patch)" % d,
         "tools/run_seeds.py %s  (git -C /repo apply patch.diff; bin/check %s --tier quick%s; git -C /repo checkout -- .)" % (d[:3], d[:3], " and bin/check C10 --tier quick" if d[:3] == "C01" else ""),
     ]
+    how = (meta.get("registered_checks_with_patch_applied") or {}).get("how")
+    if how:  # round 3: run against a scratch worktree with the patch (tools/run_seeds_wt.py / tools/mutcheck.sh)
+        meta["what_was_run"][1] = how + "; commands: " + "; ".join(c["command"] for c in meta["registered_checks_with_patch_applied"]["checks"])
     json.dump(meta, open(f"{p}/meta.json", "w"), indent=1)
     print(d, "verified" if meta.get("verified_by_tools_verify_seed", {}).get("seed_ok") else "NOT-VERIFIED", "caught" if meta.get("registered_checks_with_patch_applied", {}).get("caught") else "not-caught/not-run")
